@@ -6,6 +6,7 @@
 import Hy.Drv.Frame
 import Hy.Drv.Speedtest
 import Hy.Drv.Rate
+import Hy.Drv.Frag
 
 open Hy.Drv
 
@@ -31,4 +32,6 @@ def main (args : List String) : IO UInt32 := do
   | ["frame"] => loopPure stdin stdout Frame.step; return 0
   | ["speedtest"] => loopPure stdin stdout Speedtest.step; return 0
   | ["rate"] => loopPure stdin stdout Rate.step; return 0
+  | ["frag"] => loopPure stdin stdout Frag.step; return 0
+  | ["defrag"] => loopState stdin stdout Frag.stepSt Frag.init; return 0
   | _ => IO.eprintln "usage: hydrv <component>"; return 2
